@@ -323,7 +323,7 @@ def gen_unit(u):
 
 DA = ("distinct", "all2"); UN = ("unit0", "unit1", "unit2")
 QUICK = [(["sum"], 3, 1, DA), (["sum"], 3, 0, UN), (["sum"], 2, 1, UN), (["add"], 2, 0, DA), (["add"], 1, 1, DA), (["where"], 1, 1, DA)]
-THOROUGH = [(["sum"], 3, 2, DA), (["sum"], 3, 1, UN), (["add"], 2, 1, DA + UN[:2]), (["add"], 3, 0, DA), (["where"], 2, 1, DA)]
+THOROUGH = [(["sum"], 3, 1, DA + UN), (["sum"], 2, 2, DA), (["sum"], 4, 0, DA), (["add"], 2, 1, DA), (["add"], 3, 0, DA), (["where"], 2, 0, DA), (["where"], 1, 1, DA)]
 
 
 def run(ctx):
@@ -336,7 +336,7 @@ def run(ctx):
             key = (j["op"], j["desc"], json.dumps(j["shapes"]))
             if key not in seen: seen.add(key); items.append(j)
     for n, j in enumerate(items):
-        j["deep"] = (n % 10 == 0) or ctx.tier == "thorough"
+        j["deep"] = (n % 10 == 0) if ctx.tier == "quick" else (n % 3 == 0)
     hist = collections.Counter()
     chunks = [(ctx.seed, c) for c in runner.chunks(items, 15)]
     import random
